@@ -338,14 +338,33 @@ def reconcile_rule(ctx, F):
               'reconcile can move on to the next path (or return) without asking reconcile_path about the current one: a path is dropped from the plan by something other than the documented table',
               term_loc(b, skipped) if skipped is not None else loc(b, b.lo))
     # sorted + deduped
-    srt = fl.calls(lambda c: 'sort' in c.split('::')[-1])
-    ded = fl.calls(lambda c: c.endswith('::dedup'))
-    ctx.check(bool(srt) and bool(ded), 'C18.R4', 'reconcile:sorted-dedup', 'paths sorted and deduplicated before the loop',
+    ctx.check(sorted_unique(b, fl, it_o), 'C18.R4', 'reconcile:sorted-dedup', 'paths sorted and deduplicated before the loop',
               'reconcile no longer sorts+dedups the union of paths (duplicate decisions for paths on both sides)', loc(b, b.lo))
 
 
 PASS = ('std::iter::Iterator::chain', 'std::iter::Iterator::collect', 'std::iter::IntoIterator::into_iter',
         'std::iter::Iterator::cloned', 'std::iter::Iterator::copied', 'std::iter::Iterator::next')
+
+
+def sorted_unique(b, fl, it_origins):
+    """the walked collection is sorted and free of duplicates: sort + dedup calls, or it was collected into an ordered set"""
+    srt = fl.calls(lambda c: 'sort' in c.split('::')[-1])
+    ded = fl.calls(lambda c: c.endswith('::dedup'))
+    if srt and ded:
+        return True
+    work, seen = list(it_origins), set()
+    while work:
+        o = work.pop()
+        if o.kind != 'call' or o.bb is None or (o.key, o.bb) in seen:
+            continue
+        seen.add((o.key, o.bb))
+        t = b.blocks[o.bb]['term']
+        if o.key.endswith('::collect') or o.key.endswith('::from_iter'):
+            if b.local_ty(t['dst']['l']).startswith('std::collections::BTreeSet<'):
+                return True
+        elif o.key in PASS:
+            work.extend(fl.origins(t['args'][0], mut_calls=False))
+    return False
 
 
 def chain_form(ctx, F, b, fl, a_i, b_i):
@@ -458,9 +477,7 @@ def chain_form(ctx, F, b, fl, a_i, b_i):
     ctx.check(not skipped, 'C18.R4', 'reconcile:every-path-decided', 'each path of the union reaches reconcile_path before the closure returns',
               'reconcile can drop or keep a path without asking reconcile_path about it: a path is dropped from the plan by something other than the documented table',
               loc(cb_, cb_.lo))
-    srt = [x for x, _ in fl.calls(lambda c: 'sort' in c.split('::')[-1])]
-    ded = [x for x, _ in fl.calls(lambda c: c.endswith('::dedup'))]
-    ctx.check(bool(srt) and bool(ded), 'C18.R4', 'reconcile:sorted-dedup', 'paths sorted and deduplicated before the pass',
+    ctx.check(sorted_unique(b, fl, fl.origins(qt['args'][0], mut_calls=False)), 'C18.R4', 'reconcile:sorted-dedup', 'paths sorted and deduplicated before the pass',
               'reconcile no longer sorts+dedups the union of paths (duplicate decisions for paths on both sides)', loc(b, b.lo))
     return True
 
